@@ -412,17 +412,34 @@ def run (ctx):
       ctx.analysed(f)
       fg_ = q.cfg_of(f); parts = f.params[1]
       loops = [(s_, h, a) for (s_, h, a) in fg_.loop_nodes if isinstance(s_, ast.For)]
+      # the raise may sit in a helper of the event class (`SomeStatsEvent._raise_on(con, ofp, stats)`, a classmethod of another module):
+      # effective raises = direct ones + helper calls, with the helper's receiver / data parameters mapped back to the caller's arguments
+      eff = []          # (node in this handler, receiver text, data expression in this handler, max raises on the receiver per call)
+      for n_ in fg_.nodes:
+        for c in q.node_calls(n_):
+          if call_name(c) in ('raiseEventNoErrors', 'raiseEvent') and len(c.args) >= 4 and isinstance(c.func, ast.Attribute):
+            eff.append((n_, norm(c.func.value), c.args[3], 1))
+          elif isinstance(c.func, ast.Attribute) and isinstance(c.func.value, ast.Name) and not c.keywords:
+            K_ = mod.lookup(c.func.value.id)
+            m_ = K_.find_method(c.func.attr) if hasattr(K_, 'find_method') else None
+            if m_ is None or not m_.is_classmethod or len(m_.params) - 1 != len(c.args): continue
+            actual = dict(zip(m_.params[1:], c.args)); gm_ = q.cfg_of(m_)
+            for c2 in calls_in(m_.node):
+              if call_name(c2) in ('raiseEventNoErrors', 'raiseEvent') and len(c2.args) >= 4 and isinstance(c2.func, ast.Attribute) and isinstance(c2.func.value, ast.Name) and c2.func.value.id in actual \
+                 and isinstance(c2.args[3], ast.Name) and c2.args[3].id in actual:
+                iv2 = gm_.interval(lambda x_, c2=c2: any(y_ is c2 for y_ in q.node_calls(x_)))
+                eff.append((n_, norm(actual[c2.func.value.id]), actual[c2.args[3].id], iv2[1] if iv2 else 9))
+                ctx.analysed(m_)
       if kname in ('OFPST_FLOW', 'OFPST_TABLE', 'OFPST_PORT', 'OFPST_QUEUE'):
         # decided by evaluation: with parts whose bodies are [a, b] and [c] the list handed to the event is [a, b, c]
         # (and [a, b] for a single part), whatever loop / comprehension / fast path builds it
-        raises = fg_.nodes_with_call(lambda c: call_name(c) in ('raiseEventNoErrors', 'raiseEvent') and len(c.args) >= 4)
+        raises = eff
         verdicts = []; unknown_ = False
         for sample, want in (([q.Rec(body=['a', 'b']), q.Rec(body=['c'])], ['a', 'b', 'c']), ([q.Rec(body=['a', 'b'])], ['a', 'b']), ([q.Rec(body=[]), q.Rec(body=['z'])], ['z'])):
-          for rn in raises:
-            c_ = [c for c in q.node_calls(rn) if call_name(c) in ('raiseEventNoErrors', 'raiseEvent') and len(c.args) >= 4][0]
+          for rn, recv_, dexpr_, mx_ in raises:
             vals = set()
-            for p_, e_ in q.paths_under(repo, mod, fg_, q.Env({parts: sample}), fg_.entry, [rn], None, limit=50):
-              try: v_ = q.eval_env2(repo, mod, c_.args[3], e_, None)
+            for p_, e_ in q.paths_under(repo, mod, fg_, q.Env({parts: sample}, [], q.PureCallHook(repo, mod)), fg_.entry, [rn], None, limit=50):
+              try: v_ = q.eval_env2(repo, mod, dexpr_, e_, None)
               except Exception: v_ = '?'; unknown_ = True
               if v_ is q.OPAQUE: unknown_ = True
               vals.add(repr(v_))
@@ -432,9 +449,8 @@ def run (ctx):
           ctx.undecided('R-ALL', f, "entries of all parts are concatenated in order", "the aggregated list could not be evaluated on the sample parts", f, 'D3'); continue
         ctx.ob('R-ALL', f, "entries of all parts are concatenated in order", good, "parts [a,b]+[c] -> [a,b,c]" if good else
                "the list handed to the aggregate event is not the in-order concatenation of every part's body (evaluated on sample parts): entries are lost, duplicated or reordered", f, 'D3')
-      evc = [c for c in calls_in(f.node) if call_name(c) == 'raiseEventNoErrors']
-      on_con = [c for c in evc if norm(c.func.value) == f.params[0]]
-      iv = fg_.interval(lambda n: any(call_name(c) == 'raiseEventNoErrors' and norm(c.func.value) == f.params[0] for c in q.node_calls(n)))
+      on_con = [(n_, mx_) for n_, recv_, d_, mx_ in eff if recv_ == f.params[0]]
+      iv = fg_.interval(lambda n: sum(mx_ for n_, mx_ in on_con if n_ is n) or None)
       ctx.ob('R-EFFECT', f, "the connection's aggregate event fires at most once", iv is not None and iv[1] <= 1 and bool(on_con), "count %s" % (iv,), f, 'D3')
   sr = dh.methods.get('handle_STATS_REPLY')
   if sr is not None:
